@@ -354,6 +354,7 @@ Definition source_effects : list (list ecmd) :=
   [Gen_c10_fed_avg.federated_averaging_effects; Gen_c10_fed_prox.fed_prox_effects; Gen_c10_mime.mime_effects;
    Gen_c10_mime_lite.mime_lite_effects; Gen_c10_agnostic_fed_avg.agnostic_federated_averaging_effects;
    Gen_c10_hyp_cluster.hyp_cluster_effects; Gen_c10_apfl.adaptive_personalized_federated_learning_effects;
+   Gen_c10_apfl.apfl_eval_effects;    (* the evaluation function of APFL must not write the state either *)
    Gen_c10_compression.uniform_stochastic_quantizer_effects; Gen_c10_compression.rotated_uniform_stochastic_quantizer_effects;
    Gen_c10_compression.structured_drive_quantizer_effects; Gen_c10_compression.terngrad_quantizer_effects].
 
